@@ -17,12 +17,10 @@ Lemma idempotent_bounded c : In c family_quick -> in_zone (case_msg c) = false -
   mask_password (mask_password (case_msg c) (case_mask c)) (case_mask c) = mask_password (case_msg c) (case_mask c).
 Proof. intros Hin Hz. destruct (mask_whole_bounded c Hin Hz) as [H1 H2]. rewrite H1. exact H2. Qed.
 
-Lemma family_nonvacuous : N.of_nat (length family_quick) = 6248 /\ (exists c, In c family_quick /\ in_zone (case_msg c) = false).
+Lemma family_nonvacuous : N.of_nat (length family_quick) = 801 /\ (exists c, In c family_quick /\ in_zone (case_msg c) = false).
 Proof.
   split; [vm_compute; reflexivity|].
-  exists (lit "run ", (lit "adminpass=", ([97], ([], (lit " ok", lit "***"))))). split; [|vm_compute; reflexivity].
-  unfold family_quick. apply in_or_app. left. apply in_or_app. left.
-  unfold family_A. cbn [spec_keys_35 flat_map]. apply in_or_app. left. cbn [casings flat_map]. apply in_or_app. left.
+  exists (lit "run ", (lit "admin_password=", ([233; 94], ([], (lit " ok", lit "***"))))). split; [|vm_compute; reflexivity].
   vm_compute. left. reflexivity.
 Qed.
 
